@@ -346,7 +346,7 @@ func requestsMain(rc *RunCtx) {
 		for !w.stopped {
 			if seed.Closed || seed.conn == nil {
 				seed.Connect()
-			} else if seed.Ready && seed.ChokingSys {
+			} else if seed.Ready && seed.ChokingSys && (!seed.Cfg.ChokeUninterested || seed.SysInterested) {
 				seed.Unchoke()
 			}
 			simrt.Sleep(15 * time.Second)
